@@ -274,8 +274,37 @@ fn trailing_hunk_of_countless_version(pre: &BTreeMap<String, String>, b: u32, dc
 
 // ---------------------------------------------------------------- C09
 
+/// Directed: validate on an archive of MORE THAN A HUNDRED versions (real code + oracle): silent when healthy;
+/// the block only the OLDEST version needs removed → both validations report, as that version no longer restores.
+fn many_versions_validate(report: &mut Report) {
+    let n = 112u32;
+    let (work, arch, _src, snaps) = crate::sweep::many_versions(n);
+    report.case("many-versions-validate", true);
+    report.hit("directed:many-versions(112)");
+    let case = json!({"directed": "many-versions", "versions": n});
+    for quick in [false, true] {
+        let v = real_validate(&arch, quick, IceptConfig::default());
+        if reports_error(&v) {
+            report.oracle_fail("validate:false-alarm-many-versions", case.clone(), "validate reported an error on a healthy archive of 112 versions", json!({"result": trunc(&v.result), "events": v.events.iter().take(3).collect::<Vec<_>>()}));
+        }
+    }
+    // the journal block of b0000: the one address of its /journal entry
+    let hunk = arch.join("b0000/i/00000/000000000");
+    let Some(h) = std::fs::read(&hunk).ok().and_then(|b| crate::absarch::decode_hunk(&b)).and_then(|es| es.into_iter().find(|e| e.apath == "/journal")).and_then(|e| e.addrs.first().map(|a| a.hash.clone())) else { return };
+    let _ = std::fs::remove_file(arch.join("d").join(&h[..3]).join(&h));
+    let (rr, robs) = restore_observe(&arch, work.path(), &Sel::Band(0), "mv0");
+    let harmed = reports_error(&rr) || crate::c01::tree_diff(&snaps[&0], &robs).is_some();
+    for quick in [false, true] {
+        let v = real_validate(&arch, quick, IceptConfig::default());
+        if harmed && !reports_error(&v) {
+            report.oracle_fail(if quick { "validate-quick:silent-on-missing-block-many-versions" } else { "validate:silent-on-block-delete-many-versions" }, case.clone(), "the block only the oldest of 112 versions needs is gone, that version no longer restores, and validation reports nothing", json!({"block": h}));
+        }
+    }
+}
+
 pub fn run_c09(tier: &str, seed: u64, report: &mut Report) {
     let thorough = tier == "thorough";
+    many_versions_validate(report);
     // healthy side: every state of generated histories validates silently (full and quick)
     let n_hist = if thorough { 150 } else { 12 };
     for h in 0..n_hist {
